@@ -221,6 +221,8 @@ func ScanFooter(options *StoreOptions, fref *FileRef, fileName string,
 				return nil, err
 			}
 
+			f.initChildFooterRefs()
+
 			// json.Unmarshal would have just loaded the map.
 			// We now need to load each segment into the map.
 			// Also recursively load child footer segment stacks.
@@ -406,6 +408,15 @@ func (f *Footer) Close() error {
 	return nil
 }
 
+// initChildFooterRefs gives the child footers of a footer that was
+// just parsed from a file the one ref-count that their parent holds.
+func (f *Footer) initChildFooterRefs() {
+	for _, childFooter := range f.ChildFooters {
+		childFooter.refs = 1
+		childFooter.initChildFooterRefs()
+	}
+}
+
 // AddRef increases the ref count on this footer
 func (f *Footer) AddRef() {
 	f.m.Lock()
@@ -421,6 +432,13 @@ func (f *Footer) DecRef() {
 		f.SegmentLocs.DecRef()
 		f.SegmentLocs = nil
 		f.ss = nil
+	}
+	if f.refs == 0 {
+		// The footer holds one ref-count on each of its child
+		// collection footers, to be released exactly once.
+		for _, childFooter := range f.ChildFooters {
+			childFooter.DecRef()
+		}
 	}
 	f.m.Unlock()
 }
